@@ -83,6 +83,16 @@ PMayChange(e) == IF e.op \in {"binop", "rebind", "convert", "new"} \/ (pdef[e.r]
 \*  and through in_mks().to(name) - both observed from the same process-wide memo state, which the observation restores)
 Victims(e) == {r \in RegIds : Prev.live[r + 1] /\ e.live[r + 1] /\ pgrp[r] \notin PMayChange(e)
                                /\ (e.dig[r + 1] # Prev.dig[r + 1] \/ e.num[r + 1] # Prev.num[r + 1])}
+\* C13_Frame on the TABLES: the registries a call goes through are e.r (and e.r2 of a mixed call; the default registry when
+\* the caller's quantity is built through it).  The table rows and memo keys of every registry of ANOTHER group are the same
+\* before and after - a derived (prefixed) row or a memoised unit that appears in a registry nobody went through was written
+\* through a dict that is shared behind the caller's back; it decides what that registry resolves once its base symbol is
+\* re-valued (the row goes stale), although that registry never resolved it.
+Participants(e) == {e.r} \cup (IF e.op \in {"binop", "rebind", "convert"} THEN {e.r2} ELSE {})
+                         \cup (IF e.op = "modify" /\ e.via = "qty" THEN {0} ELSE {})
+TableVictims(e) == {r \in RegIds : Prev.live[r + 1] /\ e.live[r + 1] /\ pgrp[r] \notin PMayChange(e)
+                                    /\ (\A q \in Participants(e) : pgrp[q] # pgrp[r])
+                                    /\ (e.rows[r + 1] # Prev.rows[r + 1] \/ e.cache[r + 1] # Prev.cache[r + 1])}
 DFoo(e) == dfoo \/ (pdef[e.r] /\ e.op \in {"add", "define"})
 DDef(e) == ddef \/ (e.r = 0 /\ e.op = "define")
 \* classification of a binary operation whose result does not carry the left operand's registry
@@ -107,6 +117,9 @@ Detail(e) == CASE e.op = "binop" -> e.fn
                [] OTHER -> ""
 PReport(e) ==
   /\ \A r \in Victims(e) : Fail(e, "Frame", IF r = 0 THEN "default" ELSE proute[r], Detail(e))
+  /\ \A r \in TableVictims(e) : Fail(e, "FrameTable", IF r = 0 THEN "default" ELSE proute[r], Detail(e))
+  \* keys outside the alphabet (derived rows such as uHz) appear in the default table only through a registry object on it
+  /\ (e.dnewother > Prev.dnewother /\ ~(\E q \in Participants(e) : pdef[q])) => Fail(e, "DefaultTable", "new-symbol-other", Detail(e))
   /\ (pdef[e.r] /\ e.op \in {"modify", "remove"} /\ e.obs.k # "raise") => Fail(e, "DefaultRefuses", "default", e.sym)
   /\ (~e.dkeep) => Fail(e, "DefaultTable", "default_unit_registry.lut", Detail(e))
   /\ (~e.dlkeep) => Fail(e, "DefaultTable", "default_unit_symbol_lut", Detail(e))
